@@ -1,0 +1,15 @@
+//! Verification hooks. Compiled only with `RUSTFLAGS="--cfg khttp_verif"`; absent otherwise.
+use std::cell::Cell;
+
+thread_local! {
+    static TEST_CLOCK: Cell<Option<i64>> = const { Cell::new(None) };
+}
+
+/// Install (or remove) a per-thread clock reading returned by `date::now_unix_sec`.
+pub fn set_test_clock(secs: Option<i64>) {
+    TEST_CLOCK.with(|c| c.set(secs));
+}
+
+pub(crate) fn test_clock() -> Option<i64> {
+    TEST_CLOCK.with(|c| c.get())
+}
